@@ -6,6 +6,8 @@ ops (all run bits.bips.bip143.witness_message in the worker):
   wm_tx_spec   same implementation call, compared with the BIP143 SPEC preimage of Spec/Bip143.v
                (c11_spec_preimage) -- only generated inside the property's domain
   wm_tx_float  as wm_tx but txin_value passed as a float (int(txin_value) path)
+  wm_tx_named  as wm_tx_spec but the sighash type is given by NAME ("SINGLE|ANYONECANPAY") and resolved in the
+               worker through bits.script.constants.SIGHASH_*; model/spec side uses the standard's number
   wm_raw       arbitrary byte strings as txins/txouts/scriptcode, optional version/locktime/flag
   outpoint / txin / txout / compact_size_uint / witness_digest   the helpers on their own
 """
@@ -46,6 +48,18 @@ def _wm_tx(ver, ins, outs, lt, idx, amount, script, flag, as_float=False):
                                   version=ver, locktime=lt, sighash_flag=flag)
 
 
+NAMED = {"ALL": 0x01, "NONE": 0x02, "SINGLE": 0x03, "ALL|ANYONECANPAY": 0x81, "NONE|ANYONECANPAY": 0x82,
+         "SINGLE|ANYONECANPAY": 0x83}      # the standard's values (BIP143 / Bitcoin Core), not the repo's
+
+
+def _wm_named(ver, ins, outs, lt, idx, amount, script, name):
+    import bits.script.constants as k
+    flag = 0
+    for part in name.split("|"):
+        flag |= getattr(k, "SIGHASH_" + part)
+    return _wm_tx(ver, ins, outs, lt, idx, amount, script, flag)
+
+
 def _wm_raw(txins, idx, value, sc, txouts, ver, lt, flag):
     from bits.bips import bip143
     kw = {}
@@ -77,6 +91,7 @@ IMPL = {
     "wm_tx": _wm_tx,
     "wm_tx_spec": _wm_tx,
     "wm_tx_float": lambda *a: _wm_tx(*a, as_float=True),
+    "wm_tx_named": _wm_named,
     "wm_raw": _wm_raw,
     "outpoint": lambda t, i: _tx().outpoint(t, i),
     "txin": lambda o, s, q: _tx().txin(o, s, sequence=q),
@@ -93,6 +108,8 @@ MODEL_OPS = {
 
 
 def model_call(c):
+    if c["op"] == "wm_tx_named":
+        return "c11_spec_preimage", c["args"][:7] + [NAMED[c["args"][7]]]
     return MODEL_OPS[c["op"]], c["args"]
 
 
@@ -147,16 +164,19 @@ def in_domain(args):
 def prop_oracle(c):
     """literal statement of C11 on the implementation: for a well-formed transaction, an existing input index and
     one of the six standard types the message is byte-for-byte the BIP143 preimage (and witness_digest its HASH256)"""
-    if c["op"] not in ("wm_tx", "wm_tx_spec", "wm_tx_float"):
+    if c["op"] not in ("wm_tx", "wm_tx_spec", "wm_tx_float", "wm_tx_named"):
         return None
     args = [list(a) if isinstance(a, tuple) else a for a in c["args"]]
     args[1] = [tuple(x) for x in args[1]]
     args[2] = [tuple(x) for x in args[2]]
+    impl_args = list(args)
+    if c["op"] == "wm_tx_named":
+        args[7] = NAMED[args[7]]
     if not in_domain(args):
         return None
     want = bip143_preimage(*args)
     try:
-        got = IMPL[c["op"]](*args)
+        got = IMPL[c["op"]](*impl_args)
     except BaseException as e:  # noqa
         return "witness_message raised %s: %s; BIP143 preimage is %s" % (type(e).__name__, e, want.hex())
     if got != want:
@@ -349,6 +369,13 @@ def gen_cases(rng, tier):
         outs = [(k, b"\x51") for k in range(n)]
         for idx in range(n):
             _both(out, "selected-fields", [2, ins, outs, 0, idx, idx, b"\x51", flag])
+    # ---- the six types by NAME, resolved through bits.script.constants in the worker ----
+    for name in NAMED:
+        for _ in range(2):
+            n_in, n_out = rng.randrange(1, 9), rng.randrange(1, 9)
+            ver, ins, outs, lt = rand_tx(rng, n_in, n_out)
+            out.append(case("named-flag", "wm_tx_named", ver, ins, outs, lt, rng.randrange(n_in), _amount(rng),
+                            _script(rng, 25), name, strict=True))
     # ---- outside the domain: error behaviour and non-standard flags (model of the code only) ----
     for _ in range(40 if T else 12):
         n_in, n_out = rng.randrange(1, 9), rng.randrange(1, 9)
@@ -481,7 +508,7 @@ def extra_checks(ctx):
 # shrinking
 # ------------------------------------------------------------------------------------------
 def shrink(c):
-    if c["op"] not in ("wm_tx", "wm_tx_spec", "wm_tx_float"):
+    if c["op"] not in ("wm_tx", "wm_tx_spec", "wm_tx_float", "wm_tx_named"):
         return
     ver, ins, outs, lt, idx, amount, script, flag = c["args"]
     ins, outs = list(ins), list(outs)
